@@ -1031,4 +1031,44 @@ func (s *supSim) episodeSingleOn(name int, reason string, gap int64) {
 	}
 }
 
+// supGiveUp (C09, supervisor half): bursts and drips of failures that need a restart, one at a time from a
+// quiescent state, on the real state machines with a virtual clock; the oracle of episodeSingle counts the
+// failures in the window itself and demands: at or below the limit a restart, above it every sibling is sent
+// ErrSupervisorRestartsExceeded and the supervisor terminates with that reason once they are gone.
+func supGiveUp(c *Ctx) {
+	r := c.R
+	n := c.N(1500, 60000)
+	var seqs []supSeq
+	for i := 0; i < n; i++ {
+		g := c.Rng.Fork()
+		cfg := supRandCfg(g)
+		if cfg.Strategy == 1 {
+			cfg.Strategy = 2
+		}
+		s := newSupSim(c, g, cfg)
+		s.initRun()
+		if cfg.Kind == "sofo" {
+			for k := 0; k < 1+g.Intn(3); k++ {
+				s.api("start", cfg.Children[g.Intn(len(cfg.Children))].Name, 0)
+			}
+		}
+		for k := 0; k < 3+g.Intn(8) && s.status == 0 && !s.violated; k++ {
+			s.settle()
+			s.checkSettled()
+			s.episodeSingle()
+		}
+		seqs = append(seqs, supSeq{s.run.lines, s.run.obs, cfg, "give-up"})
+		r.Case(fmt.Sprintf("gu/%v|%s", cfg, strings.Join(s.run.lines, ";")), s.status == 1 && s.final == "exceeded")
+		if s.status == 1 && s.final == "exceeded" {
+			r.Count("sup.gave-up." + cfg.Kind)
+		} else if s.status == 0 {
+			r.Count("sup.still-running")
+		}
+		if i < 2 {
+			r.Sample(map[string]interface{}{"kind": "sup-give-up", "config": cfg, "ops": s.run.lines, "events": s.eventsS()})
+		}
+	}
+	supCompare(c, seqs, 12)
+}
+
 var _ = act.ErrSupervisorRestartsExceeded
